@@ -34,6 +34,24 @@ CHECKS = [
          text="each corpus program is compiled under the trace levels x scopes; all builds are run by the symbolic CEK machine on the "
               "same symbolic arguments and z3 is asked for an argument on which the value or abort/no-abort differs from the silent build",
          note=U_NOTE, tech="SMT translation validation across tracing configurations (symbolic CEK machine + z3)"),
+    dict(id="C07", engine="uplcsym", cat="model_checking",
+         text="clause lists (fixed hard cases, seeded random, enumerated in the thorough tier) over 18 scrutinee types are given to the real "
+              "type checker; its accept / NotExhaustive(missing patterns) / Redundant(clause) verdict is compared with a z3 decision over ALL "
+              "values of the scrutinee type (exact for the generated patterns by a small-model bound); for accepted matches the compiled `when` "
+              "is run by the symbolic CEK machine on a symbolic scrutinee and z3 decides that the first matching clause runs with the right bindings",
+         note=U_NOTE + "; reference matching relation in aikengen/lang.py", tech="SMT decision of exhaustiveness/redundancy over all values + symbolic CEK execution of the compiled match (z3)"),
+    dict(id="C15", engine="mirsym", cat="model_checking",
+         text="PARTIAL: only the name tables printer and parser keep separately are decided - <DefaultFunction as Display>::fmt and FromStr::from_str "
+              "executed from MIR for a symbolic builtin tag (round trip and injectivity for every tag), Type::to_doc leaf keywords against the "
+              "grammar rule type_info; layout, numbers, string escapes, nested constants and the peg parser as a whole are outside the claim",
+         note=M_NOTE, tech="SMT-based symbolic execution of rustc MIR (z3) with a symbolic builtin tag"),
+    dict(id="C18", engine="mirsym", cat="model_checking",
+         text="PARTIAL: (validate) Parameter validation (validate_data / validate_schema, the acceptance test of Validator::apply) executed from the "
+              "MIR of aiken-project on enumerated schema shapes x data shapes with symbolic constructor indices, tags, integers and bytes: Ok <=> the "
+              "data conforms to the schema (reference reading of CIP-57), never a panic; (apply) Validator::apply from MIR on 0..3 remaining "
+              "parameters and an opaque program: exactly the head is consumed, the program becomes [program (con data arg)], nothing else changes. "
+              "Hash/address freshness, JSON round trips and $ref resolution are outside the claim",
+         note=M_NOTE, tech="SMT-based symbolic execution of rustc MIR of aiken-project (z3)"),
     dict(id="C03", engine="mirsym", cat="model_checking",
          text="bounded symbolic execution of the MIR of Machine::compute/return_compute/force_evaluate/apply_evaluate/lookup_var/"
               "transfer_arg_stack and discharge::value_as_term on symbolic machine states (opaque sub-terms, symbolic tags/indices); "
@@ -90,6 +108,9 @@ NA = [
 ]
 
 NOT_BUILT = {
+    "C12": "not claimed: the solver legs relating the published schema of a type to the compiled `expect` for that type (symbolic CEK "
+           "execution against a z3 reading of the schema JSON) are not built; the blueprint code's own reading of a schema "
+           "(Parameter::validate) is decided under C18 - DESIGN.md section 8.2",
 }
 
 
